@@ -296,7 +296,41 @@ func (g *c1gen) multiAssignStmt() []string {
 			}
 		}
 	}
-	// parallel assignment of 2-3 distinct plain variables of one type
+	// parallel assignment over locations of any shape (variable, field, element, pointee, ...) and any
+	// value category (scalars, structs, arrays, slices): swaps and rotations, sources overlap destinations
+	if g.r.chance(50) {
+		t := g.randType()
+		if t.k == c1Ptr || t.k == c1Map || t.k == c1Func {
+			t = g.structs[0]
+		}
+		pc := g.pure(1)
+		var ls []string
+		seen := map[string]bool{}
+		for try := 0; try < 8 && len(ls) < 3; try++ {
+			lv, ok := g.lvalue(t, pc, false)
+			// distinct texts only; index expressions may still denote the same element, which is fine
+			if ok && !seen[lv] && !strings.Contains(lv, "(") {
+				seen[lv] = true
+				ls = append(ls, lv)
+			}
+		}
+		if len(ls) >= 2 {
+			n := len(ls)
+			if n == 3 && g.r.bool() {
+				n = 2
+			}
+			ls = ls[:n]
+			var rs []string
+			for i := 0; i < n; i++ {
+				rs = append(rs, ls[(i+1)%n])
+			}
+			g.f("multi-assign-shapes")
+			if t.k == c1Struct || t.k == c1Array {
+				g.f("multi-assign-aggregate")
+			}
+			return []string{strings.Join(ls, ", ") + " = " + strings.Join(rs, ", ")}
+		}
+	}
 	t := g.randBasic()
 	pc := g.pure(1)
 	vs := g.varsOf(t, pc, g.writable)
@@ -521,7 +555,86 @@ func (g *c1gen) forStmt(depth int) []string {
 	return out
 }
 
+// rangeLocStmt: range over a slice or array reached through a field / element / pointee, with a body
+// that changes the ranged location (bounded append, element write ahead of the cursor, re-assignment).
+func (g *c1gen) rangeLocStmt(depth int) []string {
+	if g.fc == nil || !g.fc.eff || g.mult*8 > 200 {
+		return nil
+	}
+	it := g.T("int")
+	var cands []*c1typ
+	cands = append(cands, g.sliceOf(it), g.arrayOf(it, 3), g.arrayOf(it, 4))
+	t := cands[g.r.intn(len(cands))]
+	pc := g.pure(1)
+	loc := ""
+	vs := g.visible()
+	start := g.r.intn(len(vs) + 1)
+	for i := 0; i < len(vs) && loc == ""; i++ {
+		v := vs[(start+i)%len(vs)]
+		if v.fn != nil || v.t == t || !g.writable(v) && !(v.t.k == c1Slice || v.t.k == c1Ptr || v.t.k == c1Map) {
+			continue
+		}
+		if (v.t.k == c1Slice || v.t.k == c1Ptr || v.t.k == c1Map) && (!g.readable(v, pc) || (v.fdepth != g.fdepth || g.isGlobal(v)) && !v.shared) {
+			continue
+		}
+		if p, ok := g.pathTo(v.name, v.t, v.minLen, t, pc, 2, true); ok && !strings.Contains(p, "(") {
+			loc = p
+		}
+	}
+	if loc == "" {
+		return nil
+	}
+	k, e := g.newName("k"), g.newName("e")
+	n := 8
+	if t.k == c1Array {
+		n = t.n
+	}
+	g.push()
+	g.declare(&c1var{name: k, t: it})
+	g.declare(&c1var{name: e, t: it})
+	var pre []string
+	switch g.r.intn(3) {
+	case 0:
+		if t.k == c1Slice {
+			pre = append(pre, "if len("+loc+") < 8 {", "\t"+loc+" = append("+loc+", "+e+"+"+fmt.Sprint(1+g.r.intn(9))+")", "}")
+		} else {
+			pre = append(pre, loc+"["+fmt.Sprintf("uint(%s+1)%%%d", k, t.n)+"] += "+e)
+		}
+	case 1:
+		m := 3
+		if t.k == c1Array {
+			m = t.n
+		}
+		pre = append(pre, loc+"["+fmt.Sprintf("uint(%s+1)%%%d", k, m)+"] += 100")
+	default:
+		if other := g.pickVar(t, pc, nil); other != nil {
+			pre = append(pre, loc+" = "+other.name)
+		} else {
+			pre = append(pre, loc+"["+fmt.Sprintf("uint(%s+1)%%3", k)+"] -= 7")
+		}
+	}
+	if g.canPrint() {
+		pre = append(pre, "fmt.Println("+k+", "+e+")")
+	}
+	lp := &c1loop{label: g.newLabel(), isLoop: true, canCont: true, noLabel: true}
+	body := g.loopBody(n, depth, lp, pre)
+	g.pop()
+	g.f("range-loc-mutated")
+	out := []string{"for " + k + ", " + e + " := range " + loc + " {"}
+	out = append(out, ind(body)...)
+	out = append(out, "}")
+	if g.canPrint() {
+		out = append(out, "fmt.Println("+loc+")")
+	}
+	return out
+}
+
 func (g *c1gen) rangeStmt(depth int) []string {
+	if g.r.chance(35) {
+		if out := g.rangeLocStmt(depth); out != nil {
+			return out
+		}
+	}
 	lp := &c1loop{label: g.newLabel(), isLoop: true, canCont: true, noLabel: g.inCase}
 	var out []string
 	var hdr string
